@@ -158,6 +158,14 @@ class _Obj:
         LOG.append(["getitem", self._k, enc(key)])
         return 0
 
+    @property
+    def head(self):
+        """reading it is observable and gives another value every time (a cursor that allocates a slot)"""
+        n = getattr(self, "_n", 0)
+        object.__setattr__(self, "_n", n + 1)
+        LOG.append(["head", self._k, n])
+        return n
+
 
 class _Acc:
     """accumulator whose in-place addition differs observably from plain addition"""
